@@ -325,6 +325,12 @@ impl CompilerDatabase {
 
     pub fn set_global(&mut self, name: &str, typ: ArcType, metadata: Arc<Metadata>, value: &Value) {
         let thread = self.thread().root_thread();
+        #[cfg(gluon_verif)]
+        crate::vm::verif::sched_point(
+            "set_global.gc",
+            &thread.global_env().gc as *const _ as usize,
+            &|| !matches!(thread.global_env().gc.try_lock(), Err(std::sync::TryLockError::WouldBlock)),
+        );
         let mut gc = thread.global_env().gc.lock().unwrap();
         let mut cloner = vm::internal::Cloner::new(&thread, &mut gc);
         let mut value: RootedValue<RootedThread> =
@@ -756,6 +762,12 @@ async fn global_inner(
     };
 
     let vm = db.thread();
+    #[cfg(gluon_verif)]
+    crate::vm::verif::sched_point(
+        "global_inner.gc",
+        &vm.global_env().gc as *const _ as usize,
+        &|| !matches!(vm.global_env().gc.try_lock(), Err(std::sync::TryLockError::WouldBlock)),
+    );
     let mut gc = vm.global_env().gc.lock().unwrap();
     let mut cloner = vm::internal::Cloner::new(vm, &mut gc);
     let value = cloner.deep_clone(&value)?;
